@@ -287,7 +287,18 @@ def run(ctx):
         chain_cases.append({"n": n, "kinds": kinds, "terms": gen_terms(rng, kinds, kind), "dt": rng.choice([0.25, 0.125]),
                             "m": rng.choice([2, 4]), "qntot": 0 if kind == "spin" else 1,
                             "centre": "left" if i % 4 != 3 else "right", "solver": "krylov"})
-    rc, res, out = ctx.impl("c12_trace.py", {"seed": rng.randrange(2**31), "cases": cases, "chain_cases": chain_cases}, timeout=1800)
+    # the logger is sequential: shard the cases over processes (each shard has its own deterministic NumPy seeds)
+    tseed = rng.randrange(2**31)
+    nsh = 4 if quick else 16
+    tshards = [{"seed": tseed + k, "cases": cases[k::nsh], "chain_cases": chain_cases[k::nsh]} for k in range(nsh)]
+    tres = ctx.impl_par("c12_trace.py", tshards, timeout=3000, par=16)
+    res, out = {"tree": [None] * len(cases), "chain": [None] * len(chain_cases)}, ""
+    for k, (rc_, r_, o_) in enumerate(tres):
+        if r_ is None:
+            res, out = None, (o_ or "")
+            break
+        res["tree"][k::nsh] = r_["tree"]
+        res["chain"][k::nsh] = r_["chain"]
     corr_bad = []
     n_eval = 0
     nontriv = set()
@@ -399,7 +410,7 @@ def run(ctx):
         oid[0] += 1
         ocases.append(c)
 
-    n_exact = 8 if quick else 60
+    n_exact = 8 if quick else 40
     for i in range(n_exact):
         kind = ["spin", "hcb", "holstein"][i % 3]
         shape = ["binary", "random", "star", "linear", "comb"][i % 5]
@@ -414,7 +425,7 @@ def run(ctx):
     c.update({"kind": "exact", "methods": ["ps", "ps2", "pc", "vmf"], "imag": [False, True], "steps": [0.2, 0.1, 0.05, 0.02],
               "vmf_steps": [0.1, 0.02], "nsteps": 4})
     add(c)
-    for i in range(6 if quick else 40):
+    for i in range(6 if quick else 30):
         kind = ["hcb", "spin", "holstein"][i % 3]
         shape = ["random", "binary", "star", "linear", "comb"][i % 5]
         n_ = rng.randrange(4, 8)
@@ -423,7 +434,7 @@ def run(ctx):
         c = gen_tree_case(rng, 0, n=n_, shape=shape, kind=kind, max_dofs=7)
         c.update({"kind": "small", "m": 2, "step": rng.choice([0.1, 0.05]), "nsteps": 5})
         add(c)
-    for i in range(5 if quick else 30):
+    for i in range(5 if quick else 20):
         n = 3 + (i % 4)
         kind = ["spin", "hcb"][i % 2]
         kinds = ["s" if kind == "spin" else "e"] * n
